@@ -26,6 +26,9 @@ SCRIPTS = {
     "dirs": ["MKD x", "CWD x", "CDUP", "RMD x", "DELE g", "MLST d"],
     "retr-then-quit": ["EPSV", "@data", "RETR d/f", "QUIT"],
     "stor-early-data": ["EPSV", "@data!", "@dsend 0123456789!", "@dclose!", "STOR new"],
+    # a data peer that stays connected but does not read (with the lock-step window the server's first block stays unsent)
+    "retr-noread": ["EPSV", "@data", "@dstop", "RETR d/f"],
+    "list-noread": ["PASV", "@data", "@dstop", "LIST"],
 }
 
 TRANSFER_SCRIPTS = ["list", "mlsd", "retr", "stor", "appe", "rest-retr", "rest-stor"]
